@@ -7,7 +7,7 @@ import vlib
 from vlib import Check
 
 NT = 10
-OPN = {0: "Lookup", 1: "Apply", 2: "Return", 3: "When", 4: "Cancel", 5: "Reset", 6: "Pkg", 7: "VarLookup"}
+OPN = {0: "Lookup", 1: "Apply", 2: "Return", 3: "When", 4: "Cancel", 5: "Reset", 6: "Pkg", 7: "VarLookup", 8: "RefusedApply"}
 
 
 def enc_probe(o):
@@ -37,7 +37,7 @@ def coq_cases(hs):
             k, a, b, c = op["k"], op["a"], op["b"], op["c"]
             ops.append({0: "MLookup %d %d" % (a, b), 1: "MApply %d %d" % (a, b), 2: "MReturn %d %d" % (a, b),
                         3: "MWhen %d %d %d" % (a, b, c), 4: "MCancel %d" % a, 5: "MReset %d" % a,
-                        6: "MPkg %d %d" % (a, b), 7: "MVarLookup %d" % a}[k])
+                        6: "MPkg %d %d" % (a, b), 7: "MVarLookup %d" % a, 8: "MRejected %d" % a}[k])
         obs = "[" + "; ".join(vlib.zlist([enc_probe(o) for o in pr] + pk) for pr, pk in zip(h["probes"], h["pkg"])) + "]"
         rows.append("  (%d, %d%%nat, [%s], %s)" % (i, h["nb"], "; ".join(ops), obs))
     L.append(";\n".join(rows))
@@ -105,7 +105,10 @@ def oracle(h):
     pkg = {}
     for st, op in enumerate(h["ops"]):
         k, a, b = op["k"], op["a"], op["b"]
-        if h["panics"][st]:
+        if k == 8:
+            if not h["panics"][st]:
+                return st, "ill-formed-apply-accepted", "an Apply with a callback of the wrong shape was accepted"
+        elif h["panics"][st]:
             return st, "instruction-panics", "%s panics (%s)" % (OPN[k], h["panics"][st])
         if k == 0:
             mid = cache.get((a, b))
